@@ -423,6 +423,9 @@ impl Ctx {
                 failure_persistence: None,
                 rng_seed: RngSeed::Fixed(rng_seed),
                 max_shrink_iters: 4000,
+                // (cases of tens of megabytes take seconds each: stop shrinking after a minute;
+                // this only affects how small the reported counterexample is)
+                max_shrink_time: 60_000,
                 max_global_rejects: 1 << 20,
                 ..Config::default()
             };
